@@ -62,7 +62,7 @@ def make_subclass(tag):
 
 
 def extension_rules(tag, kind):
-    return {'rule': {'is_odd_' + tag: True}, 'type': {'type': 'tiny_' + tag}, 'coercer': {'coerce': 'twice_' + tag},
+    return {'rule': {'is_odd_' + tag: True}, 'type': {'type': 'tiny_' + tag}, 'type-list': {'type': ['integer', 'tiny_' + tag, 'string']}, 'coercer': {'coerce': 'twice_' + tag},
             'setter': {'default_setter': 'seven_' + tag}, 'check_with': {'check_with': 'small_' + tag}}[kind]
 
 
@@ -70,7 +70,7 @@ def plant(schema, path, pkind, tag, kind):
     ext = extension_rules(tag, kind)
 
     def fn(rules):
-        if kind == 'type':
+        if kind in ('type', 'type-list'):
             rules.pop('type', None)
             for r in ('schema', 'items', 'keysrules', 'valuesrules', 'allow_unknown', 'require_all', 'purge_unknown'):
                 rules.pop(r, None)
@@ -108,7 +108,7 @@ def run(ctx):
         if not pos:
             continue
         path, pkind, rules = rng.choice(pos)
-        kind = rng.choice(['rule', 'type', 'coercer', 'setter', 'check_with'])
+        kind = rng.choice(['rule', 'type', 'type-list', 'coercer', 'setter', 'check_with'])
         if pkind == 'of-definition' and kind in ('coercer', 'setter'):
             kind = 'rule'
         if pkind == 'keysrules' and kind == 'setter':
@@ -163,12 +163,12 @@ def run(ctx):
             violations.append({"signature": "child-class:%s" % kind,
                                "what": "extension ran in an instance of %s with my_extra=%r (expected %s, 42) at a %s position" % (wrong[0][1], wrong[0][2], Sub.__name__, pkind),
                                "replay": rp})
-        if kind != 'type':
+        if kind not in ('type', 'type-list'):
             dist["invoked" if any(c[0] == kind for c in CALLS) else "not_reached"] += 1
         # isolation after use (both orders)
         base_rejects("after the subclass used it")
         # the subclass's own extensions of other kinds still known (tables not clobbered by the sibling)
-        for k2 in ('rule', 'type', 'coercer', 'setter', 'check_with'):
+        for k2 in ('rule', 'type', 'type-list', 'coercer', 'setter', 'check_with'):
             try:
                 Sub({'zz': extension_rules(tag, k2)})
             except cerberus.SchemaError as e:
